@@ -271,6 +271,7 @@ def run(ck):
     r6(ck, hw)
     r7(ck, hh)
     r8_names_written_in_a_readable_form(ck, hdr)
+    r9_quoted_form_is_read_back(ck)
 
 
 def r6(ck, hw):
@@ -431,6 +432,104 @@ def r8_names_written_in_a_readable_form(ck, hdr):
             ck.require(good, rule, "a path is formatted into a header line only by code that quotes names with white space (%s)" % host.id.split("::")[-2],
                        detail, fn.where(t), ok_detail="the quoting test covers every byte is_whitespace() accepts")
     ck.floor(rule, "places where the writer formats a path", n, 1)
+
+
+
+def _short(fn):
+    i = fn.id
+    if i.startswith("<") and " as " in i:
+        return i[1:i.index(" as ")].split("::")[-1].split("<")[0] + "::" + i.split("::")[-1]
+    return "::".join(i.split("::")[-2:])
+
+
+def r9_quoted_form_is_read_back(ck):
+    """The quoted form of a name is an escape sequence per byte; the parser's reader (parse_c_string) undoes exactly the sequences of
+    its own table.  Writer table (what is written for each of the 256 byte values, read off the emitter loop) and reader table (the
+    bytes that do not stand for themselves, the one-letter escapes, the three-digit octal form) must compose to the identity."""
+    from .. import bytetable as bt, cfg, seqmodel
+    prog = ck.prog
+    rule = "C12-R9"
+    pcs = ck.anchor("libpatch::patch::unified::parser::parse_c_string")
+    if pcs is None:
+        return
+    try:
+        specials, escapes, has_octal = bt.reader_escape_table(pcs)
+    except seqmodel.Unsupported as ex:
+        ck.violate(rule, "the reader of quoted names is a byte switch with an escape table", "cannot read the tables of parse_c_string (%s)" % ex, pcs.where())
+        return
+    ck.require(34 in specials and 92 in specials and len(escapes) >= 2, rule, "the reader of quoted names is a byte switch with an escape table",
+               "specials %s, escapes %s" % (sorted(specials), escapes), pcs.where(),
+               ok_detail="bytes %s do not stand for themselves; one-letter escapes %s; octal form: %s" % (
+                   sorted(specials), "".join(chr(k) for k in sorted(escapes)), has_octal))
+    # the writers of quoted names: functions of the writer that format a path (C12-R8) - their quoted arm
+    hosts = []
+    for fn in sorted((f for f in prog.fns.values() if f.file == WRITER_FILE), key=lambda f: f.id):
+        if any((callee_of(t).get("rpath") or "").endswith("std::path::Path::display") and not fn.blocks[bb]["cleanup"] for bb, t in fn.calls()):
+            hosts.append(fn if fn.kind != "Closure" else prog.fns.get(fn.parent, fn))
+    n = 0
+    for host in hosts:
+        tables = []
+        problems = []
+        for il in bt.byte_loops(host):
+            try:
+                tables.append((bt.emitter_table(prog, host, il), host.where(il["next_term"]), il))
+            except seqmodel.Unsupported as ex:
+                problems.append("loop at %s: %s" % (host.where(il["next_term"]), ex))
+        for bb, t in host.calls():
+            p_ = callee_of(t).get("path") or ""
+            if host.blocks[bb]["cleanup"] or not p_.endswith(("Iterator::for_each", "Iterator::try_for_each")) or len(t["args"]) < 2:
+                continue
+            ce = df.operand_expr(host, t["args"][1])
+            cl = prog.fns.get(ce[1]) if isinstance(ce, tuple) and ce and ce[0] == "closure" else None
+            if cl is None or cl.arg_count != 2 or "u8" not in cl.local_ty(2):
+                continue
+            try:
+                tab = {}
+                for c in range(256):
+                    tab[c] = bt.eval_region(prog, cl, 0, {2: c}, set())[0]
+                tables.append((tab, host.where(t), None))
+            except seqmodel.Unsupported as ex:
+                problems.append("closure at %s: %s" % (host.where(t), ex))
+        inst = "the quoted form is written byte by byte by a recognised emitter (%s)" % _short(host)
+        if not tables:
+            family = [host] + [f for f in prog.fns.values() if f.id.startswith(host.id + "::{closure")]
+            others = sorted({(callee_of(t).get("path") or "").split("::")[-1] for f in family for bb, t in f.calls()
+                             if "escape" in (callee_of(t).get("path") or "") or "quote" in (callee_of(t).get("path") or "")})
+            ck.violate(rule, inst, "no loop over the name's bytes whose writes could be tabulated%s%s: the escape sequences of the quoted form cannot be "
+                       "compared with what parse_c_string undoes" % ("; " + "; ".join(problems) if problems else "",
+                                                                     " (calls %s)" % others if others else ""), host.where())
+            continue
+        ck.ok(rule, inst, "%d emitter(s) tabulated over 256 byte values" % len(tables), host.where())
+        for tab, where, il in tables:
+            n += 1
+            bad = [(c, tab[c], bt.read_back(tab[c], specials, escapes, has_octal)) for c in range(256)]
+            bad = [(c, w, r) for c, w, r in bad if r != [c]]
+            ck.require(not bad, rule, "every byte is written as a sequence the reader turns back into that byte (%s)" % _short(host),
+                       "%d byte values are not read back, e.g. %s: a name containing such a byte is parsed as a different name (or falls back to the "
+                       "plain form, which ends at the first blank)" % (len(bad), "; ".join("byte 0x%02x written as %r, read as %s" % (
+                           c, w, "a failure" if r is None else bytes(r)) for c, w, r in bad[:4])), where,
+                       ok_detail="256 of 256 byte values: literal for %d, one-letter / backslash escapes for %d, octal for %d" % (
+                           sum(1 for c in range(256) if tab[c] == chr(c)), sum(1 for c in range(256) if len(tab[c]) == 2),
+                           sum(1 for c in range(256) if len(tab[c]) == 4)))
+            if il is not None:
+                # the sequence sits between two quotes: one written before the loop on every path into it, one after it on every path out
+                quote_bbs = set()
+                for bb, t in host.calls():
+                    last = (callee_of(t).get("path") or "").split("::")[-1]
+                    if host.blocks[bb]["cleanup"] or last not in ("write_char", "write_str") or len(t["args"]) != 2:
+                        continue
+                    a = t["args"][1]
+                    e = df.operand_expr(host, a)
+                    if (a.get("k") == "const" and a.get("int") == 34) or (df.is_const(e) and e[1] in (34, '"')):
+                        quote_bbs.add(bb)
+                opened = any(cfg.dominates(host, q, il["head"]) and q not in il["body"] for q in quote_bbs)
+                bail = {bb for bb, t in host.calls() if (callee_of(t).get("path") or "").endswith("from_residual")}
+                after = cfg.reachable(host, [il["none_edge"][1]], blocked=quote_bbs | bail) if il.get("none_edge") else set()
+                closed = not any(host.blocks[b_]["term"]["k"] == "return" for b_ in after)
+                ck.require(opened and closed, rule, "the escape sequences sit between two double quotes (%s)" % _short(host),
+                           "opening quote before the loop: %s, closing quote on every way out of it: %s" % (opened, closed), where,
+                           ok_detail="quote written before the loop and on every path from its end to the return")
+    ck.floor(rule, "emitters of quoted names tabulated", n, 1)
 
 
 def r7(ck, hh):
